@@ -305,8 +305,10 @@ class Ctx:
         ev = {"property_id": self.prop, "tier": self.tier, "seed": self.seed, "level": level,
               "coverage": cov, "assumptions": list(assumptions), "wall_s": round(wall, 2),
               "violations": len(self.violations) + (1 if (proof_broken and not self.violations) else 0)}
-        os.makedirs(os.path.join(VERIF, "evidence"), exist_ok=True)
-        with open(os.path.join(VERIF, "evidence", self.prop + ".json"), "w") as f:
+        # runs against another tree (seeded changes) must not overwrite the committed evidence
+        evdir = os.path.join(VERIF, "evidence") if REPO == "/repo" else os.path.join(BUILD, "evidence-" + hashlib.sha1(REPO.encode()).hexdigest()[:8])
+        os.makedirs(evdir, exist_ok=True)
+        with open(os.path.join(evdir, self.prop + ".json"), "w") as f:
             json.dump(ev, f, indent=1, default=str)
         shutil.rmtree(self.tmp, ignore_errors=True)
         print("%s %s tier=%s seed=%d obligations=%d/%d corr_lines=%d diffs=%d violations=%d known=%d wall=%.1fs" % (
